@@ -169,30 +169,57 @@ def run_property(prop, tier='quick', repo=REPO):
         write_evidence(ev_path, prop, tier, seed, time.time() - t0, [], [], [], None,
                        not_analysed=str(e)[:500], table=table)
         return 2
-    cx = Cx(lib, binf, tier)
-    results = []
     from rules import common as _common
     side = Rule('S-AWAIT', 'side', 'every future created from a crate-local async fn is awaited in the creating body (or is a select! branch)',
                 lambda cx_, rec_: _common.s_await(cx_.F, rec_), floor=1)
-    for rule in list(table.rules) + [side]:
-        if rule.tier == 'thorough' and tier != 'thorough':
-            continue
-        rec = Rec(prop, rule)
+
+    def evaluate(lib_, binf_, floors=True):
+        cx = Cx(lib_, binf_, tier)
+        out = []
+        for rule in list(table.rules) + [side]:
+            if rule.tier == 'thorough' and tier != 'thorough':
+                continue
+            rec = Rec(prop, rule)
+            try:
+                rule.fn(cx, rec)
+                if floors and len(rec.sites) < rule.floor and not rec.violations:
+                    rec.violation('floor', '<%s>' % rule.oid, None,
+                                  'rule matched %d site(s), fewer than the %d confirmed by hand: '
+                                  'the construct this obligation anchors on was not found (fail closed)'
+                                  % (len(rec.sites), rule.floor))
+            except mirq.AnchorMissing as e:
+                rec.violation('anchor-missing', '<%s>' % rule.oid, None,
+                              'anchor not found (fail closed): %s' % e)
+            except Exception as e:  # a crashing rule must not pass silently
+                tb = traceback.format_exc()
+                rec.violation('rule-error', '<%s>' % rule.oid, None,
+                              'rule raised %s: %s\n%s' % (type(e).__name__, e, tb[-1500:]))
+            out.append(rec)
+        return out
+
+    results = evaluate(lib, binf)
+    profiles = ['debug']
+    if tier == 'thorough':
+        # the release view of the same tree: overflow checks and debug assertions off, so checked
+        # arithmetic appears as plain (wrapping) operations.  Every obligation must hold there too.
         try:
-            rule.fn(cx, rec)
-            if len(rec.sites) < rule.floor and not rec.violations:
-                rec.violation('floor', '<%s>' % rule.oid, None,
-                              'rule matched %d site(s), fewer than the %d confirmed by hand: '
-                              'the construct this obligation anchors on was not found (fail closed)'
-                              % (len(rec.sites), rule.floor))
-        except mirq.AnchorMissing as e:
-            rec.violation('anchor-missing', '<%s>' % rule.oid, None,
-                          'anchor not found (fail closed): %s' % e)
-        except Exception as e:  # a crashing rule must not pass silently
-            tb = traceback.format_exc()
-            rec.violation('rule-error', '<%s>' % rule.oid, None,
-                          'rule raised %s: %s\n%s' % (type(e).__name__, e, tb[-1500:]))
-        results.append(rec)
+            rdir, th2, _c = ensure_facts('release', repo)
+            rlib = mirq.Facts(os.path.join(rdir, 'rdest-rlib.json'))
+            rres = evaluate(rlib, None, floors=False)  # floors were counted by hand on the debug view
+            profiles.append('release')
+            byid = {r.rule.oid: r for r in results}
+            for rr in rres:
+                base = byid.get(rr.rule.oid)
+                if base is None:
+                    continue
+                have = {v['key'] for v in base.violations}
+                for v in rr.violations:
+                    if v['key'] not in have:
+                        v['msg'] = '[release profile] ' + v['msg']
+                        base.violations.append(v)
+                base.notes.append('release profile: %d sites, %d violation(s)' % (len(rr.sites), len(rr.violations)))
+        except (NotAnalysed, RuntimeError) as e:
+            print('NOT-ANALYSED(release) property=%s: %s' % (prop, str(e)[:500]))
     known = [k for k in load_known() if k.get('property') == prop]
     open_keys = {k['key']: k for k in known if k.get('status') == 'open'}
     new_violations = []
@@ -222,8 +249,15 @@ def run_property(prop, tier='quick', repo=REPO):
                   open(rp, 'w'), indent=1)
         print('VIOLATION property=%s replay=%s' % (prop, rp))
         print('  %s  %s (%s)\n  %s' % (v['key'], v['fn'], v['loc'], v['msg'].replace('\n', '\n  ')))
+    selftest = None
+    if tier == 'thorough' and not os.environ.get('VERIF_SELFTEST') and repo == '/repo':
+        selftest = run_selftest(prop)
     write_evidence(ev_path, prop, tier, seed, time.time() - t0, results, new_violations,
-                   known_hits, lib, tree=th, table=table, cached=cached)
+                   known_hits, lib, tree=th, table=table, cached=cached, selftest=selftest, profiles=profiles)
+    if selftest and (selftest['mutants_missed'] or selftest['benign_false_alarms']):
+        print('SELFTEST-BROKEN property=%s missed=%s false_alarms=%s' % (prop, selftest['mutants_missed'], selftest['benign_false_alarms']))
+        if not new_violations:
+            return 2
     n_ob = len(results)
     n_ok = sum(1 for r in results if not r.violations)
     print('%s: %d obligations, %d discharged, %d known finding(s), %d violation(s), %d sites examined [%s, tree %s, %.1fs]'
@@ -232,8 +266,41 @@ def run_property(prop, tier='quick', repo=REPO):
     return 1 if new_violations else 0
 
 
+def run_selftest(prop):
+    """thorough tier: seeded mutants of selftest/corpus.py must be reported with the expected key and
+    benign refactors must stay silent, each in a scratch copy of the current tree"""
+    sys.path.insert(0, os.path.join(VERIF, 'selftest'))
+    os.environ['VERIF_SELFTEST'] = '1'
+    try:
+        import run_corpus
+        res = run_corpus.run(props=[prop], quiet=True)
+        s = run_corpus.summary(res)
+        # kept independent seeds (seeded/<id>/patch.diff) of this property
+        s['independent_seeds'] = seeded_summary(prop)
+        return s
+    finally:
+        os.environ.pop('VERIF_SELFTEST', None)
+
+
+def seeded_summary(prop):
+    base = os.path.join(VERIF, 'seeded')
+    out = {'total': 0, 'detected_by_this_check': 0, 'ids': []}
+    if not os.path.isdir(base):
+        return out
+    for sid in sorted(os.listdir(base)):
+        mp = os.path.join(base, sid, 'meta.json')
+        if os.path.exists(mp):
+            m = json.load(open(mp))
+            if m.get('property') == prop and m.get('confirmed'):
+                out['total'] += 1
+                out['ids'].append(sid)
+                if prop in (m.get('checks_reporting') or {}):
+                    out['detected_by_this_check'] += 1
+    return out
+
+
 def write_evidence(path, prop, tier, seed, wall, results, new_violations, known_hits, lib,
-                   tree=None, table=None, not_analysed=None, cached=None):
+                   tree=None, table=None, not_analysed=None, cached=None, selftest=None, profiles=('debug',)):
     mod_doc = ''
     try:
         mod = importlib.import_module('rules.%s' % prop)
@@ -271,9 +338,12 @@ def write_evidence(path, prop, tier, seed, wall, results, new_violations, known_
                          'documented semantics of std/tokio/bytes/sha1_smol/url/reqwest'],
         'tree_hash': tree,
         'facts_reused_from_cache_for_identical_tree': cached,
+        'profiles': list(profiles),
         'functions_in_facts': len(lib.fns) if lib else 0,
         'exhaustive': False,
     }
+    if selftest is not None:
+        cov['selftest'] = selftest
     if not_analysed:
         cov['not_analysed'] = not_analysed
         cov['evaluations'] = 1
